@@ -25,6 +25,7 @@ RULE = ("stream 'chunking': random sequences of non-empty frames (1 B..>64 KiB, 
         "stream 'zero': headers announcing zero-length frames (model validation only). Non-trivial/distinct = distinct (frame sizes, cut points, tail) tuple.")
 RULE += (' Payloads made of length-prefixed records (a piece of a frame that is itself a well-formed frame), read in pieces ending at the inner boundaries.')
 RULE += (' Streams of 1100-5000 small frames in one read.')
+RULE += (" stream 'switch': raw chunks while framing is off, then framing on and a framed stream on the same connection.")
 ASSUMPTIONS = ["CPython bytearray slicing/extend semantics", "struct.pack/unpack '>I'",
                "the lower layer delivers chunks sequentially (one network thread)"]
 EXHAUSTIVE = {"thorough": False}
@@ -78,6 +79,11 @@ def cases(chk):
     yield "zero", {"chunks": ["000000", "000000", "000001", "09"]}
     yield "zero", {"chunks": ["00000000000107"]}
     yield "disabled", {"chunks": ["000001", "07", "-"]}
+    for i in range(chk.scale(30, 600)):
+        raw = [bytes(r.randrange(256) for _ in range(r.choice([1, 1, 2, 3, 4, 33]))).hex() for _i in range(r.choice([1, 1, 2, 3]))]
+        frames = [bytes(r.randrange(256) for _ in range(r.choice([1, 2, 5, 40, 300]))).hex() for _i in range(r.randint(1, 4))]
+        total = sum(3 + len(f) // 2 for f in frames)
+        yield "switch", {"raw": raw if i % 7 else [], "frames": frames, "cuts": sorted(set(r.randint(1, max(1, total - 1)) for _ in range(r.choice([0, 1, 2, 5]))))}
     for n in sorted(set([0, 1, 2, 255, 256, 65535, 65536, (1 << 24) - 1, 1 << 24, (1 << 24) + 1]
                         + [v + d for v in chk.lits for d in (-1, 0, 1) if v + d >= 0])):
         yield "send", {"len": n, "enabled": 1}
@@ -375,6 +381,26 @@ def run_case(chk, stream, case):
         chunks = [bytes.fromhex(c) if c != "-" else b"" for c in case["chunks"]]
         _feed(chk, layer, top, chunks, fails, stream)
         chk.hit(stream)
+    elif stream == "switch":
+        # the way a login uses the layer: framing off while the raw preamble travels (whatever arrives then goes up as it is), then framing on
+        # for the rest of the same connection: the frames that follow are delivered exactly, whatever was seen before the switch
+        layer, stack_, _bottom, top = _mk(False)
+        chk.driver.ask("seg reset 0")
+        raw = [bytes.fromhex(c) for c in case["raw"]]
+        _feed(chk, layer, top, raw, fails, "switch:raw")
+        if [bytes(x) for x in top.received] != raw:
+            fails.append(oracle("C05:raw-bytes-altered", "framing off: chunks %s were handed up as %s" % ([hexs(c) for c in raw], [hexs(bytes(x)) for x in top.received][:6])))
+        stack_.setProp(YowNoiseSegmentsLayer.PROP_ENABLED, True)
+        chk.driver.ask("seg reset 1")
+        del top.received[:]
+        frames = [bytes.fromhex(f) for f in case["frames"]]
+        data = b"".join(be24(len(f)) + f for f in frames)
+        cuts = [c for c in case["cuts"] if 0 < c < len(data)]
+        delivered = _feed(chk, layer, top, _chunks(data, cuts), fails, "switch:framed")
+        chk.hit("switch:raw-chunks=%d" % len(raw))
+        if delivered != frames:
+            fails.append(oracle("C05:recv-frames-differ", "%d raw chunk(s) received while framing was off, then framing switched on and %d frames (sizes %s) sent cut at %s: "
+                                "delivered sizes %s" % (len(raw), len(frames), [len(f) for f in frames][:8], cuts[:10], [len(d) for d in delivered][:8])))
     elif stream == "send":
         n, en = case["len"], case["enabled"]
         layer, _stack, bottom, _top = _mk(bool(en))
